@@ -86,6 +86,14 @@ def main():
     synth = {"info": prob.get("info", {}), "layout": lay}
     json.dump(synth, open(os.path.join(OUT, "synth.json"), "w"), ensure_ascii=False)
     json.dump(lay, open(os.path.join(OUT, "synth_layout.json"), "w"), ensure_ascii=False)
+    # a second layout file with the SAME FILE NAME as the bundled one, in another directory, that differs on plain letter keys
+    # (C11: "a changed layout switches layout" - also when only the directory differs)
+    alt = dict(prob["layout"])
+    for x, y in (("a", "s"), ("n", "m"), ("o", "e"), ("k", "h")):
+        kx, ky = "Key_%s_Normal" % x, "Key_%s_Normal" % y
+        alt[kx], alt[ky] = prob["layout"][ky], prob["layout"][kx]
+    os.makedirs(os.path.join(OUT, "alt"), exist_ok=True)
+    json.dump({"info": prob.get("info", {}), "layout": alt}, open(os.path.join(OUT, "alt", "Probhat.json"), "w"), ensure_ascii=False)
     # layouts as character sequences (TLA+ cannot take a string apart): {entry: [chars]}
     for name, l in (("probhat", prob["layout"]), ("synth", lay)):
         json.dump({k: list(v) for k, v in l.items()}, open(os.path.join(OUT, name + "_chars.json"), "w"), ensure_ascii=False)
